@@ -15,6 +15,7 @@ import (
 
 type report struct {
 	eng      *Engine
+	bounded  []boundedResult
 	results  []*funcResult
 	tier     string
 	want     map[string]bool
@@ -244,6 +245,27 @@ func (r *report) finish() int {
 		for _, e := range specErrs {
 			violations = append(violations, r.reportStructural(p, "spec:"+e, "contract clause no longer binds to the code: "+e))
 		}
+		var boundedEv []boundedResult
+		for _, b := range r.bounded {
+			if !contains(b.Props, p) {
+				continue
+			}
+			boundedEv = append(boundedEv, b)
+			if b.Error != "" {
+				violations = append(violations, r.reportStructural(p, "bounded:"+b.Name, "bounded check could not run: "+b.Error))
+			}
+			for _, f := range b.Failures {
+				oname := b.Name + "#bounded:" + f
+				if fd := matchFinding(findings, p, sanitizeObl(oname)); fd != nil {
+					known = append(known, fmt.Sprintf("KNOWN-FINDING: property=%s obligation=%s %s", p, sanitizeObl(oname), fd.text))
+					continue
+				}
+				path := r.replayPath(p, oname)
+				data, _ := json.MarshalIndent(map[string]any{"property": p, "obligation": sanitizeObl(oname), "kind": "bounded", "clause": b.Desc, "failing_case": f, "status": "bounded-check-failed on the real code"}, "", " ")
+				os.WriteFile(path, data, 0o644)
+				violations = append(violations, fmt.Sprintf("VIOLATION property=%s replay=%s", p, path))
+			}
+		}
 		for _, s := range eng.structural {
 			violations = append(violations, r.reportStructural(p, "bind:"+s, s))
 		}
@@ -292,6 +314,7 @@ func (r *report) finish() int {
 			"solver_time_s":            round3(solverTime),
 			"unclaimed_obligations":    nUnclaimed,
 			"unclaimed_discharged":     nUnclaimedOK,
+			"bounded":                  boundedEv,
 			"known_findings":           known,
 			"abstractions":             imprecise,
 			"per_obligation":           evObs,
@@ -388,7 +411,16 @@ func matchFinding(fs []finding, prop, obl string) *finding {
 func (r *report) replayPath(p, name string) string {
 	dir := filepath.Join(r.eng.verif, "replays", p)
 	os.MkdirAll(dir, 0o755)
-	return filepath.Join(dir, sanitize(name)+".json")
+	base := sanitize(name)
+	if base != name {
+		// keep distinct obligations apart even when their names differ only in punctuation
+		h := uint32(2166136261)
+		for i := 0; i < len(name); i++ {
+			h = (h ^ uint32(name[i])) * 16777619
+		}
+		base = fmt.Sprintf("%s-%08x", base, h)
+	}
+	return filepath.Join(dir, base+".json")
 }
 
 func (r *report) reportViolation(p string, o *Obligation) string {
@@ -432,3 +464,5 @@ func truncate(s string, n int) string {
 	}
 	return s
 }
+
+func sanitizeObl(s string) string { return strings.ReplaceAll(s, " ", "_") }
